@@ -210,7 +210,8 @@ func GetFingerprint(q string) string {
 			// like 12ff: this is valid hex number and a valid ident (e.g. table
 			// name).  We can't detect this; the best we can do is realize that
 			// 12ffz is not a number because of the z.
-			if (r >= '0' && r <= '9') || (r >= 'a' && r <= 'f') || (r >= 'A' && r <= 'F') || r == '.' || r == 'x' || r == '-' {
+			if (r >= '0' && r <= '9') || (r >= 'a' && r <= 'f') || (r >= 'A' && r <= 'F') || r == '.' || r == 'x' || r == '-' ||
+				(r == '+' && (q[qi-1] == 'e' || q[qi-1] == 'E')) { // 1e+5
 				if Debug {
 					fmt.Println("Ignore digit")
 				}
@@ -519,15 +520,15 @@ func GetFingerprint(q string) string {
 					s = inQuote
 					quoteChar = r
 					cpToOffset = qi
-					if pr == 'x' || pr == 'b' {
+					if pr == 'x' || pr == 'b' || pr == 'X' || pr == 'B' {
 						if Debug {
 							fmt.Println("Hex/binary value")
 						}
 						// We're at the first quote char of x'0F'
-						// (or b'0101', etc.), so -2 for the quote char and
-						// the x or b char to copy anything before and up to
-						// this value.
-						cpToOffset = -2
+						// (or b'0101', X'0F', B'01'), so -1 for the x or b
+						// char to copy anything before and up to this
+						// value, e.g. the operator of id<x'0F'.
+						cpToOffset = qi - 1
 					}
 				}
 			}
